@@ -1,7 +1,7 @@
 (* Property C20 — cue sheet text import reproduces the layout the text describes.
    Statements only; proofs in Cue_proofs.v.  The text side is ASCII for the significant
    lines (keywords, digits, colon and double quote); skipped lines and white space may be anything. *)
-From FlacMeta Require Import Bytes Blocks Cue Accessors CueRender Cue_proofs Cue_proofs2.
+From FlacMeta Require Import Bytes Blocks BlockList Blocks_proofs2 Cue Accessors CueRender Cue_proofs Cue_proofs2 CueTyped.
 Open Scope N_scope.
 
 (* For a stream of a whole number of CD sectors, a text whose significant lines (after
@@ -66,3 +66,28 @@ Proof.
   cbv zeta. split; [vm_compute; reflexivity|]. eexists. split; [vm_compute; reflexivity|].
   split; vm_compute; reflexivity.
 Qed.
+
+(* C20 meets C11: the block a well-formed text imports to has the invariants of its Rust type (offsets multiples of 588
+   below 2^64, index points and tracks contiguous in the reader's sense, at most 100 index points per track and 99
+   tracks, ISRC and catalogue well formed) ... *)
+Theorem C20_imported_block_typed : forall c total b,
+  wf_cue c -> total mod 588 = 0 -> total < 18446744073709551616 ->
+  block_of c total = Some b -> ty_cuesheet b.
+Proof. exact imported_block_typed. Qed.
+
+(* ... so the block writer accepts it and the block reader returns it unchanged: text -> block -> bytes -> block *)
+Theorem C20_imported_text_round_trips : forall (u : list N -> bool), (forall s, Forall (fun b => b < 128) s -> u s = true) ->
+  forall (p : profile) st c total text last,
+  wf_cue c -> total mod 588 = 0 -> total < 18446744073709551616 -> before_end c total ->
+  cue_text_matches st c text = true ->
+  exists b bytes, cue_parse p total text = Ok b /\ block_of c total = Some b /\
+    write_block last (BCuesheet b) = Ok bytes /\
+    forall rest, read_block u (bytes ++ rest) = Ok (last, BCuesheet b, rest).
+Proof.
+  intros u Hu p st c total text last W Hm Ht Hb Hx.
+  destruct (C20_import p st c total text W Hm Hb Hx) as (b & Eb & Ep).
+  destruct (imported_block_round_trips u Hu c total b last W Hm Ht Eb) as (bytes & Hw & Hr).
+  exists b, bytes. auto.
+Qed.
+Print Assumptions C20_imported_block_typed.
+Print Assumptions C20_imported_text_round_trips.
